@@ -9,7 +9,7 @@ from translate import guards as t_guards
 THEOREMS = ["C19_guards_present", "C19_dense_ctor_rejects", "C19_dense_ctor_accepts", "C19_conv_ctor_rejects",
             "C19_conv_ctor_accepts", "C19_compiler_rejects", "C19_gumbel_rejects", "C19_conv_default_padding",
             "C19_groupsum_ctor_rejects", "C19_groupsum_ctor_accepts", "C19_pool_compile_decides", "C19_pool_accepted_wf",
-            "C19_compiled_forward_decides"]
+            "C19_compiled_forward_decides", "C19_positive_finite_guard"]
 TRUSTED = [
     "Coq 8.16.1 kernel/coqc; theorems closed under the global context",
     "translator translate/guards.py: presence of each modelled guard in the unparsed source of the named function (text match after "
@@ -195,10 +195,28 @@ def run(ck: Check):
         got = outcome(lambda: GroupSum(k, device="cpu"))
         record("groupsum-ctor", {"k": k, "bad": "k"}, k > 0, got)
         gs_rows.append((k, got[0] == "returned"))
-    for tau in (0.0, -2.0, float("nan"), float("inf"), 1e-46, 1e39, 0.5):
+    guard_rows = []          # (component, float class of the value, accepted)
+
+    def fclass(v):
+        import math as _m
+        return ("FNaN" if _m.isnan(v) else "FPosInf" if v == _m.inf else "FNegInf" if v == -_m.inf else "FZero" if v == 0 else
+                "FPositive" if v > 0 else "FNegative")
+    for tau in (0.0, -0.0, -2.0, float("nan"), float("inf"), float("-inf"), 1e-46, 5e-324, 1e39, 1e308, 0.5):
         okt = 0 < tau < float("inf")
         got = outcome(lambda: GroupSum(2, tau, device="cpu")(torch.ones(1, 4)))
         record("groupsum-tau", {"tau": repr(tau), "bad": "tau", "given": "constructor"}, okt, got)
+        guard_rows.append(("GroupSum.tau", fclass(tau), got[0] == "returned"))
+        from torchlogix import functional as _Fn
+        from torchlogix.layers import LearnableThermometerThresholding as _LT
+        for comp, call in (("soft_raw", lambda: _Fn.soft_raw(torch.zeros(2, 16), tau)), ("hard_walsh", lambda: _Fn.hard_walsh(torch.zeros(2), tau)),
+                           ("gumbel_sigmoid", lambda: _Fn.gumbel_sigmoid(torch.zeros(2), tau)), ("gumbel_softmax", lambda: _Fn.gumbel_softmax(torch.zeros(2, 16), tau))):
+            g2 = outcome(call)
+            record("temperature-guard", {"function": comp, "tau": repr(tau), "bad": "tau"}, okt, g2)
+            guard_rows.append((comp, fclass(tau), g2[0] == "returned"))
+        if tau < 3e38 or tau != tau:          # the slope is compared with the largest binary32 number, not with inf
+            g3 = outcome(lambda: _LT([1.0, 2.0], slope=tau))
+            record("thermometer-slope", {"slope": repr(tau), "bad": "slope"}, okt, g3)
+            guard_rows.append(("thermometer.slope", fclass(tau), g3[0] == "returned"))
         def _late(t=tau):
             g = GroupSum(2, 1.0, device="cpu")
             g.tau = t
@@ -383,6 +401,7 @@ def run(ck: Check):
         f"pool_compile_accepts ({k}) ({st}) ({p}) {nets._zl(dm)}" for k, st, p, dm, _ in pool_rows) + "].\n"
     txt += "Eval vm_compute in [" + ";\n ".join(
         f"compiled_forward_accepts {nets._nl(d)} {'true' if lf else 'false'} {nets._nl(shp)}" for d, lf, shp, _ in fwd_rows) + "].\n"
+    txt += "Eval vm_compute in [" + "; ".join(f"positive_finite_guard_accepts {fc}" for _, fc, _ in guard_rows) + "].\n"
     rc, out, err = ck.coq_eval("c19m", txt)
     if rc != 0:
         ck.broke("correspondence", "kernel evaluation of Model/Domain", err[-600:])
@@ -408,6 +427,10 @@ def run(ck: Check):
             ck.count("model_vs_impl_decisions")
             if bool(m) != acc:
                 ck.broke("correspondence", "Model/Domain.pool_compile_accepts", f"k={k} s={st} p={p} map={dm}: model {m}, implementation {'accepts' if acc else 'rejects'}")
+        for (comp, fc, acc), m in zip(guard_rows, v[6]):
+            ck.count("model_vs_impl_decisions")
+            if bool(m) != acc:
+                ck.broke("correspondence", "Model/Domain.positive_finite_guard_accepts", f"{comp} value class {fc}: model {m}, implementation {'accepts' if acc else 'rejects'}")
         for (d, lf, shp, acc), m in zip(fwd_rows, v[5]):
             ck.count("model_vs_impl_decisions")
             if bool(m) != acc:
